@@ -520,6 +520,13 @@ def run(run: Run):
     run.guard('C14.R6', r6, run, rt)
     run.rule('C14.R7', 'exact scans answer at the first equal key; approximate scans keep the last key <= value and stop only at a greater key')
     run.guard('C14.R7', r7, run, rt)
+    from . import c02 as _c02
+    from .common import borrow as _b2
+    run.rule('C14.R9', 'the area a lookup scans is the rectangle between the written corners, row-major (shared with C02.R1/R2/R4)')
+    _b2(run, 'C14.R9', _c02.r1, src, g)
+    _b2(run, 'C14.R9', _c02.r2, src)
+    _b2(run, 'C14.R9', _c02.r4_r5, src)
+    run.floor('C14.R9', 30)
     # a function result depends on its arguments only: no runtime helper keeps results or other state between calls
     from .common import borrow as _borrow
     from . import c08 as _c08
